@@ -303,9 +303,9 @@ impl ReportableError for Error {
                             loc.span = primary.span.clone();
                         } else if !(fallback.span.start == 0 && fallback.span.end == 0) {
                             loc.span = fallback.span.clone();
-                        } else {
-                            loc.span = 0..1;
                         }
+                        // Otherwise neither side knows where it comes from. The empty span is kept:
+                        // it is the only one that lies inside every text, on a character boundary.
                     }
                     loc
                 };
